@@ -491,6 +491,9 @@ class Interp:
                      kwargs: Optional[Dict[str, Any]] = None) -> List[Outcome]:
         """Interprets function `name` of module `rel` on abstract arguments; returns every outcome
         (return / raise) with the state (path condition, effects) in which it happens."""
+        where = self.sources.locate(rel, name)
+        if where is not None and where[0] != rel:
+            rel, name = where           # re-exported: interpret the definition in the module it lives in
         fn = self.sources.func(rel, name)
         return self.run_node(fn, rel, name, args, state, kwargs, None)
 
